@@ -543,12 +543,14 @@ class NPlatePerCellLineSmoother(RetrospectivePlateSmoother):
         for plate in screen.plates:
             plate_counts[self._get_plate_sample_id(plate)] += 1
 
+        selection_vector = np.ones(screen.size, dtype=bool)
+
         for sample_id, plate_count in plate_counts.items():
             if plate_count < self.min_n_cell_line_plates:
                 logger.info("Dropping all plates for sample {}".format(sample_id))
-                screen = screen.subset(screen.sample_ids != sample_id).to_screen()
+                selection_vector = selection_vector & (screen.sample_ids != sample_id)
 
-        return screen
+        return screen.subset(selection_vector).to_screen()
 
 
 class BatchieEnsemblePlateSmoother(RetrospectivePlateSmoother):
